@@ -16,6 +16,32 @@ CHECKS = [
     ),
 ]
 
+CHECKS += [
+    dict(
+        id="C02",
+        text="Every ordered list of <= 2 (thorough 3) terms over a universe of 38 ordered factor tuples (numeric, categorical with 3 and 2 "
+             "levels, a Python-expression factor, literal scalings) x intercept x construction (string / term list) x rank reduction "
+             "on/off x pandas/numpy/sparse output x four frames (1 row, repeated values, full cross, a declared level absent) is "
+             "materialized by the real code; every column is recomputed from its label with numpy and, with rank reduction off, the whole "
+             "label list is predicted as the row-wise Kronecker product with the first factor fastest.",
+        design_ref="DESIGN.md section 3 C02",
+        note="Trusted: models/design.py (label -> product recomputation). Numeric values are distinct primes / non-integers in general "
+             "position; arbitrary values are covered by the argument that columns are products of the same degree.",
+    ),
+    dict(
+        id="C03",
+        text="Two engines bound to each other. (i) The real rank-reduction functions are run on a stub factor cache for all 2^15 subsets of "
+             "the interaction lattice over 4 factors (four factor-kind configurations in thorough) and every ordered list of <= 3 (4) "
+             "lattice terms including the intercept, with and without numerical-factor clustering; the emitted scoped terms are expanded "
+             "into exact atoms (W_S x numeric factors) and must cover the unreduced design's atoms exactly once. (ii) Real matrices on "
+             "fully crossed data for every ordered list of <= 3 (4) terms x built-in contrasts: SVD rank with a gap requirement; the atom "
+             "verdict from model_spec.structure, the stub run and the numeric verdict must coincide.",
+        design_ref="DESIGN.md section 3 C03",
+        note="Trusted: the atom algebra (models/atoms.py; standard ANOVA decomposition on fully crossed data in general position); level "
+             "counts > 3 are not run end to end (the algebra is level-count independent; C11 covers codings for n <= 12).",
+    ),
+]
+
 ALL = ["C%02d" % i for i in range(1, 21)]
 _reason = "check not built yet in this revision (work in progress; see DESIGN.md section 3 for the planned bounded-exhaustive check)"
 NOT_APPLICABLE = [dict(property_id=i, reason=_reason) for i in ALL if i not in {c["id"] for c in CHECKS}]
